@@ -5,7 +5,7 @@
 //! insertion order of every small subset; plus random larger cases.
 
 use crate::ctx::Ctx;
-use crate::util::Rng;
+use crate::util::{catch, Rng};
 use semver::Version;
 use serde_json::json;
 use wac_types::{are_semver_compatible, NameMap, NameMapNoIntern};
@@ -298,6 +298,44 @@ pub fn run(ctx: &mut Ctx) {
     }
     ctx.note("map_universe", json!(sn));
     ctx.exhaustive = Some(true);
+
+    // Part B2: the import aggregator decides "same track" with its own comparison of track keys
+    // (aggregator.rs find_semver_compatible_import): every ordered pair of the map universe is
+    // aggregated as two empty instance imports; they must merge (one import, named for the higher
+    // version) exactly when the model says the names are compatible.
+    {
+        let s = sub_universe();
+        let bcase = crate::witness::WITNESS_BASE + 7;
+        if ctx.mine(bcase) {
+            ctx.begin(bcase);
+            for a in &s {
+                for b in &s {
+                    let Some(r) = catch(|| crate::props::c09::aggregate_pair(a, b)).ok().flatten() else {
+                        ctx.count("aggregator-pair:name-not-importable");
+                        continue;
+                    };
+                    ctx.eval();
+                    let want = if a == b || model_compatible(a, b) { 1 } else { 2 };
+                    match r {
+                        Ok(names) => {
+                            ctx.count(if names.len() == 1 { "aggregator-pair:merged" } else { "aggregator-pair:separate" });
+                            if names.len() != want {
+                                ctx.violation(bcase, &format!("C15:aggregator-merges-across-tracks-or-splits-a-track:{}", if names.len() < want { "merged" } else { "split" }), format!("aggregating `{a}` then `{b}` leaves imports {names:?}; the track relation says {want} import(s)"), json!({"first": a, "second": b}));
+                            } else if want == 1 && a != b {
+                                let core = |n: &str| model_track(n).map(|(_, _, v)| Version::new(v.major, v.minor, v.patch));
+                                let hi = if core(a) > core(b) { a } else { b };
+                                // equal core versions (build metadata only): either name may stay
+                                if core(a) != core(b) && names[0] != *hi {
+                                    ctx.violation(bcase, "C15:aggregator-keeps-the-lower-version-name", format!("aggregating `{a}` then `{b}` keeps `{}`, the higher version is `{hi}`", names[0]), json!({"first": a, "second": b}));
+                                }
+                            }
+                        }
+                        Err(e) => ctx.violation(bcase, "C15:aggregator-pair-conflict", format!("aggregating two empty instances `{a}`, `{b}` fails: {e}"), json!({"first": a, "second": b})),
+                    }
+                }
+            }
+        }
+    }
 
     // Part C: random larger names and maps.
     let base = n + sn as u64;
